@@ -226,7 +226,7 @@ def _lifecycle(chk, thorough):
   hits = {}
   for k, beh in enumerate(behaviours):
     pal = cr.PALETTES[(k // 2) % len(cr.PALETTES)]
-    rp = cr.Replayer(k % 2, pal)
+    rp = cr.Replayer(k % 2, pal, seq=k)
     chk.count('lifecycle-values:' + pal.name)
     divs = rp.replay(beh)
     chk.traces += 1
@@ -245,9 +245,10 @@ def _lifecycle(chk, thorough):
     for d in divs:
       st = beh[d.step].state
       observed = str(d.observed).split(':')[0] if isinstance(d.observed, str) else 'different-value'
-      _report(chk, {'mode': 'lifecycle', 'clause': d.clause, 'action': st['act'][0], 'expected': st['res']['err'],
+      _report(chk, {'mode': 'lifecycle', 'clause': d.clause, 'action': st['act'][0],
+                    'expected': d.exp_kind or st['res']['err'],
                      'observed': observed, 'after_json': bool(d.after_json),
-                     **({'diff': d.diff} if d.diff else {})},
+                     **({'diff': d.diff} if d.diff else {}), **({'slot': 'passive'} if d.slot == 'passive' else {})},
                     {'function': cr.generated(beh[0].state['sig'], pal.dv).src.splitlines()[0],
                      'values': pal.name, 'flavour': 'pg.functor' if k % 2 == 0 else 'pg.symbolize',
                      'history': acts[:d.step], 'expected': d.expected, 'observed': d.observed})
@@ -257,7 +258,8 @@ def _lifecycle(chk, thorough):
   for need in ('Construct:ok', 'SetAttr', 'DelAttr', 'Rebind', 'Clone', 'JsonRT', 'Call:ok', 'Call:rebound',
                'Call:multiple', 'Call:toomany', 'Call:unexpected', 'Call:missing',
                'Construct-mode:distinct', 'Construct-mode:equal', 'Construct-mode:boxed', 'Construct-mode:asdefault',
-               'Rebind:equal-to-default',
+               'Rebind:equal-to-default', 'Fork:clone', 'Fork:copy.copy', 'Fork:copy.deepcopy', 'Fork:pg.clone', 'Swap',
+               'two-live:Rebind', 'two-live:SetAttr', 'two-live:DelAttr', 'two-live:Call',
                'Call-mode:distinct', 'Call-mode:equal', 'Call-mode:asbound',
                'Rebind-entries:2', 'Rebind-entries:3', 'Rebind:nested-before-top'):
     chk.require(hits.get(need, 0) > 0, f'vacuous: no replayed step {need}')
